@@ -551,7 +551,7 @@ theorem poa_custom_source_score_eq_model (sc : Sc) (xp xs yp ys : Int) (g : Poa.
     ∃ tb, RbV.Gen.SrcPoaAlign.custom sc.w g sc.gap xp xs yp ys query = Rs.Res.ok tb ∧ tb.last = t.last ∧ tb.cols = t.n ∧
       (∃ c, RbV.Gen.SrcPoaAlign.Traceback_get tb (tb.last + 1) tb.cols = Rs.Res.ok c ∧ c.score = t.score) ∧
       ∀ a, RbV.Gen.SrcPoaAlign.Traceback_alignment tb = Rs.Res.ok a → a.score = t.score := by
-  obtain ⟨tb, e, el, ec, _, _, c, hc, hs⟩ := RbV.Thm.GenSrcPoaScore.custom_score_eq_model sc xp xs yp ys g.labels g.es query t
+  obtain ⟨tb, e, el, ec, _, _, _, c, hc, hs⟩ := RbV.Thm.GenSrcPoaScore.custom_score_eq_model sc xp xs yp ys g.labels g.es query t
     (RbV.Thm.GenSrcPoaScore.graphOK_of_dag g ⟨hne, hwf, hac⟩) hm hn h
   refine ⟨tb, e, el, ec, ⟨c, hc, hs⟩, ?_⟩
   intro a ha
@@ -616,7 +616,7 @@ theorem poa_alignment_source_is_traceback_of_local_table (sc : Sc) (xp xs yp ys 
       ∀ a, RbV.Gen.SrcPoaAlign.Traceback_alignment tb = Rs.Res.ok a →
         a.operations = Poa.Model.traceF (RbV.Thm.GenSrcPoaHistory.opAtS tb.matrix) ((tb.rows + 3) * (tb.cols + 3))
           (tb.last + 1) tb.cols [] := by
-  obtain ⟨tb, e, _, _, _, hO, _⟩ := RbV.Thm.GenSrcPoaScore.custom_score_eq_model sc xp xs yp ys g.labels g.es query t
+  obtain ⟨tb, e, _, _, _, _, hO, _⟩ := RbV.Thm.GenSrcPoaScore.custom_score_eq_model sc xp xs yp ys g.labels g.es query t
     (RbV.Thm.GenSrcPoaScore.graphOK_of_dag g ⟨hne, hwf, hac⟩) hm hn h
   exact ⟨tb, e, RbV.Thm.GenSrcPoaHistory.opsOK_of_oinv g.es t.last tb.matrix (hO hq),
     fun a ha => RbV.Thm.GenSrcPoaHistory.alignment_partial tb a ha⟩
